@@ -109,6 +109,36 @@ def run(c, facts, tier):
             c.ob("C12.partition", key, "error names the construct", ok, "%s(%s)" % (errctor, src(a) if a else ""), nontrivial=False)
         if enum in UNSUPPORTED and UNSUPPORTED[enum] and not errs and key != "<PositionalOption as TargetScheme>::compile":
             c.ob("C12.partition", key, "error names the construct", False, "no %s(..) constructed in %s" % (errctor, key))
+    # the Debug rendering that names the construct: derived (variant name), or hand-written and injective
+    for enum in sorted({e for e, _ in FAMILY.values()}):
+        d_ = facts.enums.get(enum)
+        if d_ is None:
+            continue
+        manual = [(p_, i) for p_, _, i in facts.impls if norm_ty(i["self_ty"]).split("<")[0] == enum and i["trait"] and norm_ty(i["trait"]).split("::")[-1] == "Debug"]
+        if "Debug" in facts.derives(d_) and not manual:
+            c.ob("C12.partition", enum, "the name shown in the error identifies the construct", True, "Debug is derived: the error shows the variant name", nontrivial=False)
+            continue
+        ok, det = None, "Debug of %s is neither derived nor a recognisable hand-written impl" % enum
+        if len(manual) == 1:
+            fm = [m_ for m_ in manual[0][1]["items"] if m_["k"] == "fn" and m_["name"] == "fmt"]
+            mt = find_all(fm[0]["body"], lambda n: n.get("k") == "match" and rx.is_var(n["scrut"], "self")) if fm else []
+            if len(mt) == 1:
+                shown = {}
+                undecided = []
+                for arm in mt[0]["arms"]:
+                    lits = [n["v"] for n in find_all(arm["body"], lambda n: n.get("k") == "lit" and n.get("t") == "str")]
+                    for p_ in rx.pat_cases(arm["pat"]):
+                        pv = rx.pat_variant(p_)
+                        if not pv or len(lits) != 1:
+                            undecided.append(psrc(p_))
+                            continue
+                        shown.setdefault(lits[0], []).append(pv[0].split("::")[-1])
+                clash = {t: vs for t, vs in shown.items() if len(vs) > 1}
+                covered = {v for vs in shown.values() for v in vs}
+                missing = [v for v in facts.variants(enum) if v not in covered]
+                ok = not clash and not undecided and not missing
+                det = "hand-written Debug for %s: %d variants rendered; same text for several variants: %s; arms not understood: %s; variants without an arm: %s" % (enum, len(covered), clash or "none", undecided or "none", missing or "none")
+        c.ob("C12.partition", enum, "the name shown in the error identifies the construct", ok, det, witness=("-printf '%%Y'" if enum == "FormatField" else None) if not ok else None)
     # C12.siblings
     pv = variant_outcomes(tabs["scheme::target_scheme::placeholder"], "FormatField", None)
     sv = variant_outcomes(tabs["scheme::target_scheme::snippet"], "FormatField", None)
